@@ -57,6 +57,12 @@ claim("C10",
       "Bounded symbolic model checking of the real nflog code: the merge step from an arbitrary pre-state (inductive), Log/Query/GC laws and "
       "delivery-order convergence are each decided by SMT for all instants/flags within the stated bounds; an unsat answer covers every input on that path.",
       "Bounds: <=3 entries, 2 keys, <=4 operations, instants 1970..2200. Codec opaque. " + TRUSTED, "4 C10")
+claim("C11",
+      "The real maintenance/shutdown snapshot code of silences and notification log runs on a crash-consistent file-system model: the process is killed before each of its file-system operations, or the machine loses power "
+      "after completion; unsynced data survives only as an arbitrary prefix (possibly a torn record), an unsynced rename may be lost; the restarted instance must load, without error, exactly the old or exactly the new state. "
+      "Snapshot->load round trips (all field shapes, old single-list format, legacy comments) and loads of cut snapshots run through the real protobuf codec natively.",
+      "Bounds: <=3 entries per state, one maintenance round, <=7 FS operations, 7 cut positions. The crash harnesses exist only in the engine (the FS model is a stub of package os; counterexamples are re-executed by `gosmt replay`); "
+      "I/O errors (ENOSPC) are outside, as the property quantifies over kills and power loss; field-level wire-format equality is checked natively only on the sampled paths. " + TRUSTED, "4 C11")
 claim("C12",
       "Lifecycle histories on the real silence store: create (start possibly in the past), then k arbitrary steps (edit comment/end/start/matchers, unknown id, expire twice, GC) at arbitrary "
       "instants, compared with the lifecycle rules of the property; plus the API handler's rejections (end<=start, end in the past, empty-matching or invalid matchers, unknown id).",
